@@ -274,6 +274,9 @@ func ruleC19(w *World, r *Report) {
 	// R19.1 per-path response discipline
 	npaths := 0
 	complete := enumPaths(serve, 2, 20000, func(p *Path) {
+		if _, feasible := pathAtoms(p); !feasible {
+			return // e.g. "helper returned (nil, err)" followed by "err == nil"
+		}
 		npaths++
 		var statuses []string
 		var statusVals []int64
